@@ -18,7 +18,9 @@ Tie (harness bin `typecheck`, three typecheck runs per module, then the module i
     definite unflagged Interface type gets the isinstance oracle after the run (function types: typing.Callable), and the
     defs that use those globals according to the value they finally hold must get no diagnostic;
   * model: for the programs wrapped in one function the Coq model (vm_compute, Typing/Cases.v) must assign the same
-    type to every binding it models, and the same approximation flag.
+    type to every binding it models, and the same approximation flag; the hand-written tuple-slice programs
+    (tuple_slice_model_cases: the rule of expr_slice_basic repaired by 0f4399a, which the generator does not reach)
+    are always among the compared programs.
 The Python side never decides soundness by itself: membership is answered by the implementation's own isinstance."""
 import json
 import os
@@ -194,14 +196,15 @@ def modlevel_cases(ctx, n_random, n_table):
     table = typed.module_level_table()
     if n_table < len(table):
         # always keep the rows whose final value has another kind than the first binding, sample the rest
-        diff = [t for t in table if t["diff"]]
-        rest = [t for t in table if not t["diff"]]
+        diff = [t for t in table if t["diff"] and t["branchy"]]
+        rest = [t for t in table if not (t["diff"] and t["branchy"])]
         ctx.rng.shuffle(diff)
         ctx.rng.shuffle(rest)
         table = diff[:max(n_table * 3 // 4, 1)] + rest[:max(n_table // 4, 1)]
     out, meta = [], {"modlevel_table_rows": len(table), "modlevel_random": n_random, "modlevel_rebind_diff": 0, "modlevel_uses": 0}
     for t in table:
-        out.append({"src": t["src"], "run": True, "kind": "modlevel-table", "welltyped": True, "id": "ml:" + t["id"], "form": t["id"]})
+        out.append({"src": t["src"], "run": True, "kind": "modlevel-table", "welltyped": True, "id": "ml:" + t["id"], "form": t["id"],
+                    "_coq": t["coq"]})
         meta["modlevel_rebind_diff"] += int(t["diff"])
     for _ in range(n_random):
         seed = ctx.rng.getrandbits(48)
@@ -225,6 +228,50 @@ def load_corpus():
                 c = json.loads(line)
                 out.append({"src": c["src"], "run": True, "kind": "corpus", "welltyped": c.get("welltyped", False), "id": "corpus:" + c["name"],
                             "form": c.get("form")})
+    return out
+
+
+def tuple_slice_model_cases():
+    """Hand-written wrapped programs about the rule of expr_slice_basic for tuple types (repaired by 0f4399a: a tuple type
+    slices to tuple[T0 | .. | Tn-1, ...]).  The generator slices only str and list values, so these fixed programs are what
+    ties Typing/Model.v `slice_basic` on tuples to the real checker: they get the run-time oracle AND, always (both tiers), the
+    model-vs-TypeMap comparison (kind `corpus-model`; source text and Gallina term come from the same AST)."""
+    def I(z):
+        return ("int", z)
+
+    def V(x):
+        return ("var", x)
+
+    def sl(a, lo, hi, st=None):
+        return ("slice", a, lo, hi, st)
+
+    def asg(x, e):
+        return ("assign", ("tvar", x), e)
+    t = ("tuple", [I(1), ("str", "a")])
+    progs_ = {
+        # fixed arity, the empty tuple (Ty::unions([]) = Never), a slice of a slice (homogeneous), every bound form
+        "tuple-slice-fixed-empty-homogeneous": [
+            asg("t", t), asg("r", sl(V("t"), I(0), I(1))), asg("e", ("tuple", [])), asg("q", sl(V("e"), I(0), I(1))),
+            asg("s", sl(V("r"), None, I(5))), asg("a", sl(V("t"), None, None, I(-1))), asg("b", sl(V("t"), I(1), None)),
+            asg("c", sl(("tuple", [I(1), I(2), I(3)]), I(-2), None, I(1))), asg("n", sl(("tuple", [("none",)]), I(3), None))],
+        # unions of tuple types of different arities and element types; nested; inside a comprehension and a list display
+        "tuple-slice-unions-and-nesting": [
+            asg("t", t), asg("r", sl(V("t"), I(0), I(1))), asg("u", ("ifx", V("r"), V("t"), ("tuple", [I(2)]))),
+            asg("w", sl(V("u"), None, None, I(2))),
+            asg("m", ("ifx", V("r"), V("t"), ("list", [I(1)]))), asg("k", sl(V("m"), I(0), I(1))),
+            asg("p", ("tuple", [V("t"), ("list", [V("t")]), ("bool", True)])), asg("g", sl(V("p"), I(1), None)),
+            asg("x", ("lcomp", sl(V("y"), I(0), I(1)), [("for", ("tvar", "y"), ("list", [V("t")]))])),
+            asg("l", ("list", [sl(V("t"), None, I(1)), sl(V("w"), I(1), None)])),
+            asg("i", ("index", sl(V("t"), I(0), I(2)), I(0)))],
+    }
+    out = []
+    for name, prog in progs_.items():
+        iprog = typed.instrument(prog)
+        wprog = progs.wrap_in_function(iprog)
+        nw, _ = progs.number(wprog)
+        g = {"prog": prog, "coq_wrapped": progs.coq_block(nw), "coq_sigs": typed.sigs_coq(wprog, {})}
+        out.append({"src": "\n".join(typed.render(wprog, {})) + "\n", "run": True, "kind": "corpus-model", "welltyped": True,
+                    "id": "corpus-model:" + name, "_g": g})
     return out
 
 
@@ -294,8 +341,8 @@ def classify_unsound(case, name, tys, values):
     ty = " / ".join(tys)
     if ty == "float | int" and vk in ("str", "list", "tuple") and ("*" in form):
         return "unsound:int-mul-any"
-    if vk == "tuple" and ty.startswith("(") and re.search(r"\[[^\]]*:[^\]]*\]", form):
-        return "unsound:tuple-slice-keeps-arity"
+    if vk == "tuple" and ty.startswith("(") and (re.search(r"\[[^\]]*:[^\]]*\]", form) or "slice" in form.split("+")):
+        return "unsound:tuple-slice-keeps-arity"          # repaired by 0f4399a (status fixed): reported again if it returns
     if vk in ("list", "tuple") and ty == "str" and re.search(r"\[[^\]]*:[^\]]*\]", form):
         return "unsound:slice-drops-iterable-alternative"      # x: str | typing.Iterable; x[i:j] typed str (C17_refuted_iterable_slice)
     return "unsound-binding:%s:%s:%s" % (ty, vk, re.sub(r"[a-z]+\d+", "_", form)[:60])
@@ -421,8 +468,11 @@ def evaluate(ctx, cases, tag="cases", model=True):
         pairs = [(c, r) for c, r in zip(cases, res) if c["kind"] == "gen-wrapped" and r and "tc" in r]
         pairs.sort(key=lambda cr: len(cr[0]["src"]))
         pairs = pairs[:ctx.n(10, 640)]        # the Gallina terms of big programs take seconds each to elaborate
+        # the hand-written programs about rules the generator does not reach (tuple slices) are always compared
+        pairs = [(c, r) for c, r in zip(cases, res) if c["kind"] == "corpus-model" and r and "tc" in r] + pairs
         b2 = compare_model(ctx, pairs, st, tag)
         broken += b2
+        broken += compare_iface_model(ctx, [(c, r) for c, r in zip(cases, res) if c.get("_coq") and r and "tc" in r], st, tag)
     return failures, broken, st
 
 
@@ -486,6 +536,55 @@ def compare_model(ctx, pairs, st, tag):
     return broken
 
 
+IFACE_HEADER = ("From Coq Require Import List NArith Bool.\nFrom SV Require Import Typing.IfaceModel.\nImport ListNotations.\n")
+
+
+def compare_iface_model(ctx, pairs, st, tag):
+    """The interface builder model (Typing/IfaceModel.v `iface_obs`, vm_compute) against the real Interface for the variable
+    `level` of the table modules: Any <-> Any, otherwise the same set of alternatives."""
+    broken = []
+    st.setdefault("iface_model_rows_equal", 0)
+    st.setdefault("iface_model_rows_outside", 0)
+    if not pairs:
+        return broken
+    nshard = min(4, len(pairs))
+    files = []
+    for s in range(nshard):
+        part = pairs[s::nshard]
+        text = IFACE_HEADER
+        for k in range(0, len(part), 100):
+            text += "Eval vm_compute in [%s].\n" % ";\n ".join("iface_obs (%s) 0" % c["_coq"] for c, _ in part[k:k + 100])
+        files.append(("%s_iface_%d" % (tag, s), text))
+    outs = sv.coq_eval_files(ctx, files, timeout=600)
+    mism = []
+    for s, (rc, out) in enumerate(outs):
+        part = pairs[s::nshard]
+        vals = [x for v in sv.coq_values(out) for x in v] if rc == 0 else []
+        if rc != 0 or len(vals) != len(part):
+            broken.append(("iface-model-run-failed", "coqc rc=%s, %d of %d values: %s" % (rc, len(vals), len(part), out[-300:])))
+            continue
+        for (c, r), v in zip(part, vals):
+            impl = dict((n, t) for n, t in r["tc"]["interface"]).get("level")
+            if impl is None:
+                mism.append((c, "implementation has no interface entry for `level`"))
+                continue
+            ik = typed.iface_kind_codes(impl)
+            if ik == "?":
+                st["iface_model_rows_outside"] += 1
+                continue
+            tagv, codes = int(v[0]), set(int(x) for x in v[1])
+            mk = None if tagv == 1 else codes
+            if tagv != 0 and mk == ik:
+                st["iface_model_rows_equal"] += 1
+            else:
+                mism.append((c, "interface of `level`: model %s, implementation `%s`" % ("Any" if mk is None else sorted(mk), impl)))
+    if mism:
+        c, d = mism[0]
+        broken.append(("iface-model-tie", "%d table modules: Typing/IfaceModel.v and the implementation's Interface differ; first: module %s: %s"
+                       % (len(mism), c["id"], d)))
+    return broken
+
+
 def coverage(cases, st, meta):
     top = sorted(st["types_seen"].items(), key=lambda kv: -kv[1])[:40]
     return {
@@ -504,6 +603,7 @@ def coverage(cases, st, meta):
         "ill_typed_modules": st["illtyped"], "ill_typed_modules_with_diagnostics": st["diagnostics_on_illtyped"],
         "traces_validated_against_impl": st["model_bindings_equal"], "model_programs": st["model_programs"],
         "model_bindings_outside_fragment": st["model_bindings_unmodelled"],
+        "interface_model_rows_equal": st.get("iface_model_rows_equal", 0), "interface_model_rows_outside": st.get("iface_model_rows_outside", 0),
         "committed_types_seen": dict(top), "distinct_committed_types": len(st["types_seen"]),
         "input_distribution": {"module_kinds": st["kinds"], "generator": meta},
         "exhaustive": False,
@@ -521,7 +621,7 @@ def all_cases(ctx, deep=False):
     weird = [] if deep else weird_cases(ctx.rng, ctx.n(20, 400))
     ml, mlmeta = modlevel_cases(ctx, ctx.n(150, 6000) if not deep else 1500, ctx.n(260, 100000) if not deep else 100000)
     meta.update(mlmeta)
-    return corpus + ml + fam + lc + gen + ill + files + weird, meta
+    return corpus + tuple_slice_model_cases() + ml + fam + lc + gen + ill + files + weird, meta
 
 
 def correspond(ctx):
@@ -596,12 +696,20 @@ META = {
                   "+ - ~ not, the ten int arithmetic/bitwise operators, + and * on str/list/tuple, comparisons, == !=, in / not in, and/or/"
                   "conditional, indexing of list/tuple/dict, slicing of str/list/tuple, calls of the pure builtins len str bool int any all abs "
                   "min max sorted list - one lemma per operator family (C17_bin_op_sound, C17_index_sound, C17_slice_sound, C17_builtin_sound) - "
-                  "under the explicit boolean side condition `sound_ops`, which excludes exactly THREE rules that the faithful model REFUTES "
-                  "with vm_compute witnesses: `int * Any` typed `float | int` (C17_refuted_int_mul_any, known finding unsound:int-mul-any), the "
-                  "slice of a fixed-arity tuple keeping its arity (C17_refuted_tuple_slice, known finding unsound:tuple-slice-keeps-arity), and "
-                  "NEW: the slice of a union with a typing.Iterable alternative, where typecheck_union_simple drops the Iterable alternative "
+                  "under the explicit boolean side condition `sound_ops`, which excludes exactly TWO rules that the faithful model REFUTES "
+                  "with vm_compute witnesses: `int * Any` typed `float | int` (C17_refuted_int_mul_any; REPAIRED in /repo by 19a3ea8 - the translator now extracts the rule, the tie runs the model with the extracted flag and C17_bin_op_sound_extracted has no side condition on `*`), and "
+                  "the slice of a union with a typing.Iterable alternative, where typecheck_union_simple drops the Iterable alternative "
                   "(C17_refuted_iterable_slice: `x: str | typing.Iterable; y = x[0:1]` is typed `str`, f([1, 2]) binds y = [1]; reproduced on the "
-                  "real checker with harness bin typecheck, isinstance is False). Every type the checker computes from normalised types is "
+                  "real checker with harness bin typecheck, isinstance is False). A THIRD rule used to be refuted - the slice of a fixed-arity "
+                  "tuple keeping its arity (`t[0:1]`, t: (int, str) typed (int, str), value (1,); finding unsound:tuple-slice-keeps-arity) - and was "
+                  "REPAIRED in /repo by 0f4399a: expr_slice_basic now answers Ty::tuple_of(tuple.item_ty()). The model follows the repaired rule "
+                  "(Typing/Model.v slice_basic: a tuple type, fixed-arity or homogeneous, slices to tuple[T0 | .. | Tn-1, ...], the empty tuple "
+                  "type to tuple[typing.Never, ...]; C17_slice_basic_tuple), the side condition of C17_slice_sound / sound_ops no longer excludes "
+                  "tuples (C17_slice_ok_is_no_iterable: only the Iterable alternative), the old refutation is gone and its witness is now proved "
+                  "sound and accepted by sound_ops (C17_tuple_slice_sound_example, C17_sound_ops_rejects_witnesses); the translator extracts the "
+                  "shape of expr_slice_basic, TyTuple::item_ty and Ty::tuple_of and C17_extracted_tuple_slice_rule fails if the old rule returns; "
+                  "hand-written tuple-slice programs (the generator slices only str and list) are compared model vs TypeMap on every run and "
+                  "get the isinstance oracle. Every type the checker computes from normalised types is "
                   "normalised (C17_infer_wf; the invariant the soundness proof needs). (3) WHOLE-MODULE SOUNDNESS FOR STRAIGHT-LINE MODULES "
                   "(C17_infer_sound_straightline): for a sequence of assignments `x = e` with right-hand sides in the fragment, an unflagged "
                   "solver result and no diagnostic, after running the assignments every binding the checker commits to holds a value of the "
@@ -610,19 +718,30 @@ META = {
                   "builtins, list(range(..)), calls of defs with defaults, list/dict comprehensions) gets no diagnostic in the model checker and "
                   "its committed type is compatible with the generator's type; rests on C17_unions_keep_compat (Ty::unions keeps compatibility) "
                   "and C17_compatible_types_intersect (intersects after widen_numeric). "
+                  "(5) THE MODULE INTERFACE (exported module variables; computed by the partial evaluator GlobalTypesBuilder of "
+                  "fill_types_for_lint.rs, not by the solver) is modelled in Typing/IfaceModel.v (assignment = union with the existing entry, "
+                  "def = function type, every variable assigned in a top-level if/else/for body or by a tuple unpacking is reset to Any, "
+                  "augmented assignment ignored) and proved sound for EVERY run of the module, conditions and iteration counts arbitrary "
+                  "(C17_interface_sound, C17_interface_step_sound, C17_interface_unset_exact); the variant that keeps the first binding's type "
+                  "for a variable re-bound where the assignment may not run exactly once is refuted (C17_interface_keep_first_binding_refuted, "
+                  "witnesses for if / for / unpacking). The model is tied to the code on the systematic table of the module-level family "
+                  "(same Any / same alternatives for every row); that defs using such globals get no false error is covered by the tie only. "
                   "Still missing from the proof: soundness with control flow (if/for/def bodies), tuple-unpacking targets, augmented assignment, "
                   "comprehensions/methods/lambdas/calls of defs in the semantics (they are in the model and in the tie); completeness at statement "
                   "level (that the solver result satisfies the environment hypothesis of C17_welltyped_no_error for every generated program), "
                   "methods, lambdas, keyword arguments, enumerate/zip/reversed; the full oracle. The property on the real code is decided by the "
                   "tie: three identical typecheck runs without crash on every parseable file of the repository and on generated modules; no "
                   "diagnostic on well-typed generated modules; and the DIRECT ORACLE isinstance(value, committed type) for every binding of every "
-                  "top-level def and every exported name at run time; model types equal TypeMap on the modelled fragment.",
+                  "top-level def and every exported name at run time (module-level family: exported variables bound once / re-bound "
+                  "straight-line / re-bound or bound only inside top-level if, else, for bodies / unpacked / augmented / loop variables / "
+                  "(re)defined defs / aliases, values of every kind; function-typed exported bindings are tested against typing.Callable); "
+                  "model types equal TypeMap on the modelled fragment; interface model equals Interface on the table.",
     "level_note": "Trusted: Coq kernel; harness bin typecheck; tools/gen/{progs,typed}.py; vm_compute route; isinstance as membership (C16). Modelled rather "
                   "than verified: the oracle's ~270 native signatures (only the result types of the dozen builtins the generator uses), attributes and "
                   "methods, loads/interfaces across modules, container mutation (append/extend/setitem bindings), lambdas; bindings are identified by name. "
                   "The tie is differential/dynamic testing, so an unsound rule outside the generated forms can escape.",
     "technique": "Coq model of the checker + proofs of flagged termination / post-fixpoint / per-operator expression soundness under an explicit side "
-                 "condition (three refutation witnesses) / straight-line module soundness / completeness on the generator's typing rules; type-directed "
+                 "condition (two refutation witnesses, two rules repaired in the code and followed by the model) / straight-line module soundness / completeness on the generator's typing rules; type-directed "
                  "generator; run-time isinstance oracle on the implementation's committed types; model vs TypeMap comparison",
     "design_ref": "DESIGN.md section 4 C17, section 6",
 }
